@@ -186,6 +186,7 @@ def proof_obligations(pid):
                 res["axioms"][name] = []
                 continue
             axs = re.findall(r"^([A-Za-z_][\w.']*)\s*:", b, re.M)
+            axs = [a for a in axs if a != "Axioms"]   # the block's own heading line
             bad = [a for a in axs if a not in AXIOM_WHITELIST and not a.startswith(PRIMITIVE_PREFIXES)
                    and a.split(".")[-1] not in AXIOM_WHITELIST]
             res["axioms"][name] = axs
